@@ -20,6 +20,7 @@ import (
 	"go/ast"
 	"go/parser"
 	"go/token"
+	"go/types"
 	"path/filepath"
 	"sort"
 	"strconv"
@@ -293,8 +294,46 @@ func extractWiring() string {
 	}
 	sort.Strings(mounts)
 	sort.Strings(gethead)
-	return fmt.Sprintf("routes=%s getops=%s postops=%s methods=%s mounts=%s gethead=%s",
-		join(routes), getops, postops, join(methods), join(mounts), join(gethead))
+	// ---- (*CA).Reload: which servers are handed the new CA's server, and under which condition
+	relf := findFunc(caf, "CA", "Reload")
+	if relf == nil {
+		return "unrecognised:ca.Reload"
+	}
+	reloadCall := func(st ast.Stmt) (string, bool) {
+		ifs, ok := st.(*ast.IfStmt)
+		if !ok || ifs.Init == nil {
+			return "", false
+		}
+		as, ok := ifs.Init.(*ast.AssignStmt)
+		if !ok || len(as.Rhs) != 1 {
+			return "", false
+		}
+		fn, args, ok := callName(as.Rhs[0])
+		if !ok || !strings.HasPrefix(fn, "ca.") || !strings.HasSuffix(fn, ".Reload") || len(args) != 1 {
+			return "", false
+		}
+		x := strings.TrimSuffix(strings.TrimPrefix(fn, "ca."), ".Reload")
+		if selString(args[0]) != "newCA."+x {
+			return x + "<-" + selString(args[0]), true
+		}
+		return x, true
+	}
+	var reloads []string
+	for _, st := range relf.Body.List {
+		if x, ok := reloadCall(st); ok {
+			reloads = append(reloads, x)
+			continue
+		}
+		if ifs, ok := st.(*ast.IfStmt); ok && ifs.Init == nil {
+			for _, inner := range ifs.Body.List {
+				if x, ok := reloadCall(inner); ok {
+					reloads = append(reloads, x+":"+strings.ReplaceAll(types.ExprString(ifs.Cond), " ", ""))
+				}
+			}
+		}
+	}
+	return fmt.Sprintf("routes=%s getops=%s postops=%s methods=%s mounts=%s gethead=%s reloads=%s",
+		join(routes), getops, postops, join(methods), join(mounts), join(gethead), join(reloads))
 }
 
 // condLeft returns the left operand of `x != nil`.
